@@ -291,12 +291,17 @@ Definition is_open (c : cobs) : bool := c_state_of c =? 0.
 (** window bookkeeping of the monitor, per asset: (elapsed, completed incoming in this window);
     the windows are those of the reset rule (keeper/asset.go UpdateTimeBasedSupplyLimits) applied to
     the block times of the history *)
-Definition wtick (dt : Z) (pw : aparam * (Z * Z)) : Z * Z :=
-  let '(p, (el, w)) := pw in
-  if ap_tl p && (el + dt <? ap_period p) then (el + dt, w) else (0, 0).
+Definition wtick (P : list aparam) (dt : Z) (pw : aparam * (Z * Z)) : Z * Z :=
+  let '(p0, (el, w)) := pw in
+  match get_param P (ap_denom p0) with
+  | Some p => if ap_tl p && (el + dt <? ap_period p) then (el + dt, w) else (0, 0)
+  | None => (el, w)          (* no parameters for this asset: the begin blocker does not touch its record *)
+  end.
 
-Definition wticks (k : case) (ws : list (Z * Z)) (dts : list Z) : list (Z * Z) :=
-  fold_left (fun ws dt => map (wtick dt) (combine (k_params k) ws)) dts ws.
+(** [P] = the asset parameters in force (the stored parameters as observed); the positions of the
+    bookkeeping are those of the case's genesis list [k_params k] (the universe of assets) *)
+Definition wticks (k : case) (P : list aparam) (ws : list (Z * Z)) (dts : list Z) : list (Z * Z) :=
+  fold_left (fun ws dt => map (wtick P dt) (combine (k_params k) ws)) dts ws.
 
 Definition wclaims (k : case) (po o : obs) (ws : list (Z * Z)) : list (Z * Z) :=
   map (fun pw : aparam * (Z * Z) =>
@@ -312,7 +317,7 @@ Definition wclaims (k : case) (po o : obs) (ws : list (Z * Z)) : list (Z * Z) :=
 
 (** 0 = holds; 1 escrow_eq_open, 2 incoming_outgoing_eq_open, 3 current_eq_minted_minus_burned
     (and = bank supply), 4 limits_respected *)
-Definition p04 (k : case) (o : obs) (ws : list (Z * Z)) : Z :=
+Definition p04 (k : case) (P : list aparam) (o : obs) (ws : list (Z * Z)) : Z :=
   let esc := match nthZ (k_nactors k) (o_bals o) with Some r => r | None => [] end in
   let c1 := eqb esc (map (fun d => sum_where k o (fun c => is_open c && locks c) d) (denoms_of o)) in
   let per_asset (f : aparam -> (Z * Z * Z * Z * Z) -> Z -> Z * Z -> bool) : bool :=
@@ -328,17 +333,23 @@ Definition p04 (k : case) (o : obs) (ws : list (Z * Z)) : Z :=
               let net := sum_where k o (fun c => (c_state_of c =? 1) && (c_tr_of c =? 1) && (c_dir_of c =? 1)) (ap_denom p)
                          - sum_where k o (fun c => (c_state_of c =? 1) && (c_tr_of c =? 1) && (c_dir_of c =? 2)) (ap_denom p) in
               (cur =? net) && (b =? net)) in
-  let c4 := per_asset (fun p s _ w =>
+  let c4 := per_asset (fun p0 s _ w =>
               let '(i, og, cur, _, _) := s in
-              (cur + i <=? ap_limit p) && (0 <=? og) && (og <=? cur) && (negb (ap_tl p) || (snd w <=? ap_tbl p))) in
+              match get_param P (ap_denom p0) with   (* the limits of the parameters IN FORCE *)
+              | Some p => (cur + i <=? ap_limit p) && (0 <=? og) && (og <=? cur) && (negb (ap_tl p) || (snd w <=? ap_tbl p))
+              | None => true
+              end) in
   if negb c1 then 1 else if negb c2 then 2 else if negb c3 then 3 else if negb c4 then 4 else 0.
 
 (** ** one pass over the case *)
 Record verdict := mkV { v_corr : Z; v_p03 : Z; v_c03 : Z; v_p04 : Z; v_c04 : Z }.
 
-(** [act]: the property monitors are evaluated only up to and including the first parameter change of a
-    case: they (and the theorems) are about histories with unchanged asset parameters; after a change the
-    correspondence alone is checked (the model applies the new parameters like the code). *)
+(** Parameter changes.  The limit clauses of [p04] and the window bookkeeping use the parameters IN FORCE
+    (the stored parameters as observed, [o_params]).  [act]: the property monitors stay on across
+    rejected and across COMPATIBLE accepted changes ([compat_b] on the model state: denoms kept, the
+    new limits cover the usage) - exactly the histories of the theorems; after an incompatible accepted
+    change (a valid claim may then legitimately fail, limits may be exceeded) only the correspondence
+    is checked for the rest of the case. *)
 Definition is_setparams (c : cop) : bool := match c with CSetParams _ _ => true | _ => false end.
 
 Fixpoint check_from (k : case) (act : bool) (s : state) (po : obs) (ws : list (Z * Z)) (steps : list (cop * dobs)) (i : Z) (v : verdict) : verdict :=
@@ -352,17 +363,21 @@ Fixpoint check_from (k : case) (act : bool) (s : state) (po : obs) (ws : list (Z
       let corr := if (v_corr v <? 0) && negb (op_wf k c && corr_obs k s' code o) then i else v_corr v in
       let r03 := if act then p03 k po c o else 0 in
       let ws' := match c with
-                 | CAdv dts => wticks k ws dts
-                 | CAdvN n dt => wticks k ws (repeat dt (Z.to_nat n))
+                 | CAdv dts => wticks k (o_params po) ws dts
+                 | CAdvN n dt => wticks k (o_params po) ws (repeat dt (Z.to_nat n))
                  | _ => wclaims k po o ws
                  end in
-      let r04 := if act then p04 k o ws' else 0 in
+      let incompatible := match c with
+                          | CSetParams _ P' => (o_code o =? 0) && negb (compat_b s P')
+                          | _ => false
+                          end in
+      let r04 := if act && negb incompatible then p04 k (o_params o) o ws' else 0 in
       let v' := mkV corr
                     (if (v_p03 v <? 0) && negb (r03 =? 0) then i else v_p03 v)
                     (if (v_p03 v <? 0) && negb (r03 =? 0) then r03 else v_c03 v)
                     (if (v_p04 v <? 0) && negb (r04 =? 0) then i else v_p04 v)
                     (if (v_p04 v <? 0) && negb (r04 =? 0) then r04 else v_c04 v) in
-      check_from k (act && negb (is_setparams c)) s' o ws' rest (i + 1) v'
+      check_from k (act && negb incompatible) s' o ws' rest (i + 1) v'
   end.
 
 (** ** the hypotheses of the theorems of Props/C03.v and Props/C04.v, decided per case: asset limits
@@ -398,7 +413,7 @@ Definition check_all (k : case) : verdict :=
   let s0 := init (k_params k) (bank_of k (k_obs0 k)) (o_time (k_obs0 k)) in
   let ws0 := map (fun _ => (0, 0)) (k_params k) in
   let v0 := mkV (if corr_obs k s0 0 (k_obs0 k) && hyps0_b k then -1 else 0) (-1) 0
-                (if p04 k (k_obs0 k) ws0 =? 0 then -1 else 0) (p04 k (k_obs0 k) ws0) in
+                (if p04 k (o_params (k_obs0 k)) (k_obs0 k) ws0 =? 0 then -1 else 0) (p04 k (o_params (k_obs0 k)) (k_obs0 k) ws0) in
   check_from k true s0 (k_obs0 k) ws0 (k_steps k) 0 v0.
 
 (** (first diverging step or -1, first step violating the property or -1, violated clause) *)
